@@ -2,7 +2,7 @@
 let main (f : string -> string) : unit =
   (try
      while true do
-       let line = String.trim (input_line stdin) in
+       let line = Stdlib.String.trim (input_line stdin) in
        if line <> "" && line.[0] <> '#' then begin
          print_endline (try f line with
                         | Failure m -> "model-failure " ^ m
